@@ -22,10 +22,87 @@ def _self_calls(A, f, name):
             and isinstance(n.func.value, ast.Name) and n.func.value.id == 'self']
 
 
+def check_numpy_entries(A, R, rid):
+    """np.load must accept what np.save writes, and return a copy (shared with C15)."""
+    # numpy entries: what np.save can write, np.load must be able to read back - and as a copy, not as a view of the file
+    npc = A.prog.find_cls('NumpyArrayCache')
+    if npc is not None:
+        saves = [n_ for m_ in npc.methods.values() for n_ in A.typer.own_nodes(m_) if isinstance(n_, ast.Call) and src(n_.func) in ('np.save', 'numpy.save')]
+        loads = [(m_, n_) for m_ in npc.methods.values() for n_ in A.typer.own_nodes(m_) if isinstance(n_, ast.Call) and src(n_.func) in ('np.load', 'numpy.load')]
+        pickling = any(not any(kw.arg == 'allow_pickle' and isinstance(kw.value, ast.Constant) and kw.value.value is False for kw in c_.keywords) for c_ in saves)
+        for m_, c_ in loads:
+            ap = [kw for kw in c_.keywords if kw.arg == 'allow_pickle']
+            ok_ap = not pickling or (ap and isinstance(ap[0].value, ast.Constant) and ap[0].value.value is True)
+            mm = [kw for kw in c_.keywords if kw.arg == 'mmap_mode' and not (isinstance(kw.value, ast.Constant) and kw.value.value is None)]
+            R.check(ok_ap and not mm, rid, f'NumpyArrayCache.{m_.name}: `{src(c_)[:50]}`', key_of('np-load', ok_ap, bool(mm)), 'np.load accepts what np.save writes (allow_pickle=True) and returns a copy',
+                    ('np.save pickles object arrays (its default), but np.load refuses pickled data unless allow_pickle=True: such an entry is written and can never be read back, every call recomputes' if not ok_ap else
+                     'np.load(mmap_mode=...) returns a view of the cache file: a later forced write of the key changes (or truncates under) a value that an earlier call already returned'), where=where(m_, c_))
+
+
+def check_load_handlers(A, R, rid, rid_force=None):
+    """R14.2 (and R14.5 when rid_force is given) for FileCache.get and FileCache.get_or_compute; shared with C15 / C16."""
+    fc = A.cls('FileCache')
+    goc = fc.lookup('get_or_compute')
+    get = fc.lookup('get')
+    cp = [p for p in goc.params if p not in ('self', 'key', 'force')][0]
+    comps = [n for n, o, sites in A.nodes_with_sites(goc) if isinstance(n, ast.Call) and isinstance(n.func, ast.Name) and src(resolve_expr(A, goc, n.func, o, sites)) == cp]
+    for f in (get, goc):
+        cfg = A.cfg(f)
+        loads = _self_calls(A, f, 'load_value')
+        R.require(loads, f'anchor: no load_value call in {f.short}')
+        for ld in loads:
+            construct = f'{f.short}: `{src(ld)[:40]}`'
+            for ln in cfg_nodes_for(cfg, ld):
+                exc = cfg.succ_by_label(ln.id, 'exc')
+                if not exc:
+                    R.violation(rid, construct, key_of('unprotected-load', f.short), 'load_value is not inside a try: a corrupt file raises instead of being recomputed', where=where(f, ld))
+                    continue
+                handlers = [cfg.nodes[d] for e in exc for d in (nx.descendants(cfg.g, e) | {e}) if cfg.nodes[d].kind == 'handler']
+                handlers = [h for h in handlers if any(cfg.g.has_edge(e, h.id) for e in exc)]
+                ce = [h for h in handlers if 'CacheException' in h.label]
+                generic = [h for h in handlers if h.label in ('Exception', 'BaseException', 'bare')]
+                problems = []
+                if not ce:
+                    problems.append('no CacheException handler: a file recorded for another key would be treated as corrupt and silently recomputed')
+                if not generic:
+                    problems.append('no generic handler: a corrupt/truncated file raises instead of being recomputed')
+                for h in ce:
+                    if cfg.path_exists([h.id], [cfg.exit.id]):
+                        problems.append('CacheException handler can continue normally (error not reported)')
+                    # order: specific handler must come before the generic one
+                    tr = h.ast._parent
+                    idx = tr.handlers.index(h.ast)
+                    if any(tr.handlers.index(g.ast) < idx for g in generic if g.ast._parent is tr):
+                        problems.append('generic handler precedes the CacheException handler (it would never fire)')
+                for g in generic:
+                    rets = [cfg.nodes[d] for d in nx.descendants(cfg.g, g.id) if cfg.nodes[d].kind == 'stmt' and isinstance(cfg.nodes[d].ast, ast.Return) and cfg.nodes[d].id in _handler_body(cfg, g)]
+                    if rets:
+                        problems.append('generic handler returns from inside the handler')
+                    if f is goc:
+                        comp_nodes = [n.id for c in comps for n in cfg_nodes_for(cfg, c)]
+                        p = cfg.find_path([g.id], [cfg.exit.id], avoid=comp_nodes)
+                        if p is not None:
+                            problems.append('after a failed load a path returns without recomputing')
+                    else:
+                        bad = [cfg.nodes[d] for d in nx.descendants(cfg.g, g.id) if cfg.nodes[d].kind == 'stmt' and isinstance(cfg.nodes[d].ast, ast.Return) and cfg.nodes[d].owner is f.node
+                               and src(cfg.nodes[d].ast.value or ast.Constant(None)) != 'NO_VALUE']
+                        if bad:
+                            problems.append('after a failed load get() returns something other than NO_VALUE')
+                    if _handler_reraises(cfg, g):
+                        problems.append('generic handler re-raises')
+                R.check(not problems, rid, construct, key_of('handlers', f.short, sorted(problems)), 'CacheException re-raised, other errors fall through', '; '.join(problems), where=where(f, ld))
+                # R14.5
+                if f is goc and rid_force is not None:
+                    facts = [(src(a), pol) for a, pol in cfg.facts_at(ln.id)]
+                    fparam = 'force'
+                    ok = (fparam, False) in facts
+                    R.check(ok, rid_force, construct, key_of('force-guard'), 'load guarded by not force', 'the load is not guarded by `not force`: force=True could return the stored value', witness=[str(facts)], where=where(f, ld))
+
+
 def run(A, R: Report, thorough: bool):
     R.explanation = ('CFG rules on FileCache.get / get_or_compute (ordering of compute and save, exception handlers around the load, guard conjuncts), control dependence '
                      'of the key-mismatch error in JsonCache.load_value, and the symbolic term of the cache file path. Not decided: value round trip, behaviour on every truncation.')
-    R.trusted = TRUSTED_BASE
+    R.trusted = TRUSTED_BASE + ['numpy.save pickles object arrays by default while numpy.load refuses pickled data unless allow_pickle=True; numpy.load(mmap_mode=...) returns a view of the file, not a copy']
     fc = A.cls('FileCache')
     goc = fc.lookup('get_or_compute')
     get = fc.lookup('get')
@@ -71,57 +148,7 @@ def run(A, R: Report, thorough: bool):
     # ---- R14.2 / R14.5 per entry point
     R.rule('R14.2', 'around load_value: CacheException propagates; any other exception is not returned from and falls through to recompute / NO_VALUE', floor=2)
     R.rule('R14.5', '`force` false is a conjunct of the load guard; get() calls no computer', floor=2)
-    for f in (get, goc):
-        cfg = A.cfg(f)
-        loads = _self_calls(A, f, 'load_value')
-        R.require(loads, f'anchor: no load_value call in {f.short}')
-        for ld in loads:
-            construct = f'{f.short}: `{src(ld)[:40]}`'
-            for ln in cfg_nodes_for(cfg, ld):
-                exc = cfg.succ_by_label(ln.id, 'exc')
-                if not exc:
-                    R.violation('R14.2', construct, key_of('unprotected-load', f.short), 'load_value is not inside a try: a corrupt file raises instead of being recomputed', where=where(f, ld))
-                    continue
-                handlers = [cfg.nodes[d] for e in exc for d in (nx.descendants(cfg.g, e) | {e}) if cfg.nodes[d].kind == 'handler']
-                handlers = [h for h in handlers if any(cfg.g.has_edge(e, h.id) for e in exc)]
-                ce = [h for h in handlers if 'CacheException' in h.label]
-                generic = [h for h in handlers if h.label in ('Exception', 'BaseException', 'bare')]
-                problems = []
-                if not ce:
-                    problems.append('no CacheException handler: a file recorded for another key would be treated as corrupt and silently recomputed')
-                if not generic:
-                    problems.append('no generic handler: a corrupt/truncated file raises instead of being recomputed')
-                for h in ce:
-                    if cfg.path_exists([h.id], [cfg.exit.id]):
-                        problems.append('CacheException handler can continue normally (error not reported)')
-                    # order: specific handler must come before the generic one
-                    tr = h.ast._parent
-                    idx = tr.handlers.index(h.ast)
-                    if any(tr.handlers.index(g.ast) < idx for g in generic if g.ast._parent is tr):
-                        problems.append('generic handler precedes the CacheException handler (it would never fire)')
-                for g in generic:
-                    rets = [cfg.nodes[d] for d in nx.descendants(cfg.g, g.id) if cfg.nodes[d].kind == 'stmt' and isinstance(cfg.nodes[d].ast, ast.Return) and cfg.nodes[d].id in _handler_body(cfg, g)]
-                    if rets:
-                        problems.append('generic handler returns from inside the handler')
-                    if f is goc:
-                        comp_nodes = [n.id for c in comps for n in cfg_nodes_for(cfg, c)]
-                        p = cfg.find_path([g.id], [cfg.exit.id], avoid=comp_nodes)
-                        if p is not None:
-                            problems.append('after a failed load a path returns without recomputing')
-                    else:
-                        bad = [cfg.nodes[d] for d in nx.descendants(cfg.g, g.id) if cfg.nodes[d].kind == 'stmt' and isinstance(cfg.nodes[d].ast, ast.Return) and cfg.nodes[d].owner is f.node
-                               and src(cfg.nodes[d].ast.value or ast.Constant(None)) != 'NO_VALUE']
-                        if bad:
-                            problems.append('after a failed load get() returns something other than NO_VALUE')
-                    if _handler_reraises(cfg, g):
-                        problems.append('generic handler re-raises')
-                R.check(not problems, 'R14.2', construct, key_of('handlers', f.short, sorted(problems)), 'CacheException re-raised, other errors fall through', '; '.join(problems), where=where(f, ld))
-                # R14.5
-                if f is goc:
-                    facts = [(src(a), pol) for a, pol in cfg.facts_at(ln.id)]
-                    fparam = 'force'
-                    ok = (fparam, False) in facts
-                    R.check(ok, 'R14.5', construct, key_of('force-guard'), 'load guarded by not force', 'the load is not guarded by `not force`: force=True could return the stored value', witness=[str(facts)], where=where(f, ld))
+    check_load_handlers(A, R, 'R14.2', 'R14.5')
     user_calls = [e for c in fc.all_subclasses(include_self=False) for e in effects_of(A).collect(Ctx(get, ('inst', c))) if e.kind == 'USER' and e.detail.startswith('call of')]
     R.check(not user_calls and not any(p for p in get.params if 'comput' in p), 'R14.5', 'FileCache.get', key_of('get-computes'), 'get() has no callable to compute with',
             'get() invokes user code', witness=[e.describe() for e in user_calls], where=where(get))
@@ -161,6 +188,16 @@ def run(A, R: Report, thorough: bool):
         if truthy and not ident:
             R.violation('R14.3', 'JsonCache.load_value: None check', key_of('none-by-truthiness', truthy[0][0]), f'the stored value is rejected when `{truthy[0][0]}` is falsy: with allow_nones=False a stored 0, "", [] or False can be written but never read back (CacheException on every later access)',
                         where=where(lv, rn.ast))
+    # CacheException means "this file belongs to another key" (get / get_or_compute re-raise it); a file that cannot be decoded must stay an ordinary error
+    for ci_ in [c_ for c_ in A.prog.classes.values() if c_.is_subclass_of(A.cls('FileCache'))]:
+        lv_ = ci_.methods.get('load_value')
+        if lv_ is None:
+            continue
+        cfg_ = A.cfg(lv_)
+        conv = [n_ for n_ in cfg_.nodes.values() if n_.kind == 'stmt' and isinstance(n_.ast, ast.Raise) and n_.ast.exc is not None and 'CacheException' in src(n_.ast.exc) and n_.id in cfg_.in_handler]
+        R.check(not conv, 'R14.3', f'{ci_.short}.load_value: decoding errors', key_of('decode-error-as-mismatch', ci_.short, len(conv)), 'no exception handler turns a load failure into CacheException',
+                f'an exception handler in {ci_.short}.load_value re-raises a load failure as CacheException: get() and get_or_compute() let CacheException through (it means "file of another key"), so an empty / truncated file raises instead of being recomputed',
+                where=where(lv_, conv[0].ast) if conv else where(lv_))
     sv = jc.methods.get('save_value')
     dumps = [n for n in inl(A, sv) if isinstance(n, ast.Call) and src(n.func).endswith('dump') and n.args and isinstance(subst_single_assign(A, sv, n.args[0]), ast.Dict)]
     if dumps:
@@ -226,6 +263,22 @@ def run(A, R: Report, thorough: bool):
             R.violation('R14.6', 'InMemoryCache.get_or_compute', key_of('weak-store', weak[:30]), weak, where=where(fgm, c))
         else:
             R.undecided('R14.6', 'InMemoryCache.get_or_compute', 'how the computed value is stored is not recognised', where=where(fgm, c))
+    # the entry is replaced only by a finished computation: nothing is removed / overwritten on a path that has not completed computer()
+    cfgm = A.cfg(fgm)
+    comp_nodes = {n_.id for c in compc for n_ in cfg_nodes_for(cfgm, c)}
+    early = []
+    for n_ in cfgm.nodes.values():
+        if n_.kind != 'stmt' or n_.ast is None or n_.id in comp_nodes:
+            continue
+        st_ = n_.ast
+        mut_ = (isinstance(st_, ast.Delete) and any(isinstance(t_, ast.Subscript) for t_ in st_.targets)) or \
+               (isinstance(st_, (ast.Assign, ast.AugAssign)) and any(isinstance(t_, ast.Subscript) for t_ in (st_.targets if isinstance(st_, ast.Assign) else [st_.target]))) or \
+               any(isinstance(x, ast.Call) and isinstance(x.func, ast.Attribute) and x.func.attr in ('pop', 'popitem', 'clear', 'update', '__delitem__', '__setitem__') for x in ast.walk(st_))
+        if mut_ and cfgm.find_path([cfgm.entry.id], [n_.id], avoid=comp_nodes) is not None:
+            early.append(st_)
+    R.check(not early, 'R14.6', 'InMemoryCache.get_or_compute: entry kept until the computation finished', key_of('early-mutation', [src(e)[:40] for e in early]), 'the store is changed only after computer() returned',
+            f'`{src(early[0])[:60] if early else ""}` changes the store before computer() has returned: a forced computation that raises has already destroyed the stored entry', where=where(fgm, early[0]) if early else where(fgm))
+    check_numpy_entries(A, R, 'R14.3')
     isc = imc.lookup('subcache')
     text = src(isc.node)
     R.check('get_ident()' in text and 'name' in text and 'InMemoryCache()' in text, 'R14.4', 'InMemoryCache.subcache', key_of('mem-subcache'), 'separate object per name and thread',
